@@ -216,9 +216,14 @@ def evaluate_z3_re_range(
     if expr.decl().name() != "re.range":
         return Nothing
 
-    return Some(
-        construct_result(lambda args: f"[{args[0]}-{args[1]}]", children_results)
-    )
+    def constructor(args):
+        lower, upper = args
+        if len(lower) != 1 or len(upper) != 1 or lower > upper:
+            # SMT-LIB: the empty language.
+            return "(?!)"
+        return f"[{re.escape(lower)}-{re.escape(upper)}]"
+
+    return Some(construct_result(constructor, children_results))
 
 
 def evaluate_z3_re_loop(
